@@ -607,7 +607,9 @@ def unfiltered (f : File) : OFile := ⟨f.id, f.deps.map (·.file), f.msgs, f.en
     out although another kept file requires it is the syserror. -/
 def rewrite (cfg : Cfg) (st : St) (noInc : Bool) (img : Image) : Except Err (List OFile) :=
   let c : RCtx := ⟨st, noInc, !cfg.svcMarksInput⟩
-  let cand := img.files.filter (fun f => st.seen.contains f.id)
+  -- `closure.imports[path]` exists when the file was the target of addImport *or* the source of an
+  -- import edge (addImport creates `imports[fromPath]` as a side effect)
+  let cand := img.files.filter (fun f => st.seen.contains f.id || st.edges.any (fun e => e.1 = f.id))
   if cand.any (fun f => !c.has (.file f.id) && st.edges.any (fun e => e.2 = f.id)) then .error .internal
   else
     let out := cand.filterMap (remapFile c)
